@@ -125,6 +125,9 @@ FLOATS_E = ["1e-20", "3.2e-07", "0.0", "1.5e-100", "0.01", "1e-05", "2.5e-300", 
 FLOATS_B = ["50.5", "20.0", "12.5", "8.1", "300.0", "1234.5", "0.1", "77.7", "15.0"]
 PROFILES = ["PKS_KS", "PKS_AT", "AMP-binding", "Condensation", "PP-binding", "t2ks", "t2clf", "Chal_sti_synt_C",
             "LANC_like", "Lant_dehydr_N", "TIGR03731", "strH_like", "neoL_like", "DOIS", "valA_like", "salQ"]
+HIT_RECIPES = [["PKS_KS", "PKS_AT"], ["Condensation", "AMP-binding", "PP-binding"], ["PKS_KS"], ["AMP-binding"],
+               ["Chal_sti_synt_C", "Chal_sti_synt_N"], ["LANC_like", "Lant_dehydr_C", "Lant_dehydr_N"], ["PP-binding"],
+               [], [], ["PKS_AT", "PKS_KS", "Condensation", "AMP-binding"], ["t2ks", "t2clf"], ["strH_like"]]
 PRODUCTS = ["T1PKS", "NRPS", "T2PKS", "lanthipeptide-class-i", "amglyccycl", "hglE-KS", "NRPS-like", "prod_A"]
 
 
@@ -182,6 +185,9 @@ class C11(Property):
         ("antismash/common/secmet/qualifiers/secmet.py", "SecMetQualifier.Domain.from_json"),
         ("antismash/common/hmm_rule_parser/cluster_prediction.py", "CDSResults.__init__"),
         ("antismash/common/hmm_rule_parser/cluster_prediction.py", "CDSResults.annotate"),
+        ("antismash/common/hmm_rule_parser/cluster_prediction.py", "RuleDetectionResults.annotate_cds_features"),
+        ("antismash/common/secmet/qualifiers/secmet.py", "SecMetQualifier.add_domains"),
+        ("antismash/common/secmet/qualifiers/gene_functions.py", "GeneFunctionAnnotations.add"),
         ("antismash/common/hmm_rule_parser/cluster_prediction.py", "CDSResults.to_json"),
         ("antismash/common/hmm_rule_parser/cluster_prediction.py", "CDSResults.from_json"),
         ("antismash/common/hmm_rule_parser/cluster_prediction.py", "RuleDetectionResults.schema_version"),
@@ -202,6 +208,17 @@ class C11(Property):
         ("antismash/detection/hmm_detection/__init__.py", "HMMDetectionResults.to_json"),
         ("antismash/detection/hmm_detection/__init__.py", "HMMDetectionResults.from_json"),
         ("antismash/detection/hmm_detection/__init__.py", "regenerate_previous_results"),
+        ("antismash/detection/hmm_detection/__init__.py", "run_on_record"),
+        ("antismash/detection/hmm_detection/__init__.py", "get_ruleset"),
+        ("antismash/common/hmm_rule_parser/cluster_prediction.py", "detect_protoclusters_and_signatures"),
+        ("antismash/common/hmm_rule_parser/cluster_prediction.py", "build_results"),
+        ("antismash/common/serialiser.py", "AntismashResults.SCHEMA_VERSION"),
+        ("antismash/common/serialiser.py", "AntismashResults.COMPATIBLE_SCHEMAS"),
+        ("antismash/common/serialiser.py", "AntismashResults.from_file"),
+        ("antismash/common/serialiser.py", "AntismashResults.to_json"),
+        ("antismash/common/serialiser.py", "AntismashResults.write_to_file"),
+        ("antismash/common/serialiser.py", "dump_records"),
+        ("antismash/main.py", "read_data"),
         ("antismash/detection/sideloader/data_structures.py", "_qualifier_mapping"),
         ("antismash/detection/sideloader/data_structures.py", "Tool.__post_init__"),
         ("antismash/detection/sideloader/data_structures.py", "Tool.to_json"),
@@ -230,6 +247,10 @@ class C11(Property):
         ("antismash/common/hmmer.py", "HmmerResults.to_json"),
         ("antismash/common/hmmer.py", "HmmerResults.from_json"),
         ("antismash/common/hmmer.py", "HmmerResults.refilter"),
+        ("antismash/common/hmmer.py", "HmmerResults.add_to_record"),
+        ("antismash/detection/nrps_pks_domains/domain_identification.py", "generate_domain_features"),
+        ("antismash/detection/nrps_pks_domains/domain_identification.py", "CDSResult.annotate_domains"),
+        ("antismash/detection/nrps_pks_domains/__init__.py", "regenerate_previous_results"),
         ("antismash/detection/full_hmmer/__init__.py", "regenerate_previous_results"),
         ("antismash/detection/cluster_hmmer/__init__.py", "regenerate_previous_results"),
         ("antismash/modules/tta/tta.py", "TTAResults.schema_version"),
@@ -264,7 +285,10 @@ class C11(Property):
         "for exact positions; fuzzy positions (<5, >9) are not generated",
         "JSON values of an unexpected type, NaN/inf scores, extra qualifiers on protoclusters, T2PKS qualifiers and "
         "sideloaded protoclusters inside rule results are outside the modelled domain and not generated",
-        "get_ruleset(options).get_rule_names() is an input of the model (read from the real rule files per case)",
+        "get_ruleset(options).get_rule_names() is an input of the model (read from the real rule files per case); "
+        "results of records with genes are produced by the real run_on_record with only hmmsearch replaced by the case's hits",
+        "results file: the record body (record_to_json / record_from_json) is opaque in the model (C10); identical HMM hits "
+        "inside one gene (one dictionary key in generate_domain_features) are not generated",
         "results classes of modules that need external binaries (clusterblast, …) are not modelled",
     ]
 
@@ -272,7 +296,7 @@ class C11(Property):
     def cases(self, rng: random.Random, tier: str, deep: bool) -> Iterator[Dict[str, Any]]:
         scale = 6 if deep else 1
         plan = [("hmmresult", 1500), ("nrpspks", 600), ("hmmdet", 350), ("sideload", 1500), ("hmmer", 1500),
-                ("tta", 600), ("runmod", 24)]
+                ("tta", 600), ("resfile", 500), ("runmod", 24)]
         for kind, n in plan:
             if kind == "runmod":
                 yield from self.all_runmod()
@@ -398,10 +422,29 @@ class C11(Property):
                 saved["limit"] = ["T1PKS"]
                 cur["limit"] = ["T1PKS"]
                 cur["strictness"] = rng.choice([s for s in ("strict", "relaxed", "loose") if s != saved["strictness"]])
-        return {"kind": "hmmdet", "record": {"id": rng.choice(["rec1", "NZ_X.1"]), "length": length, "circular": circular,
+        case = {"kind": "hmmdet", "record": {"id": rng.choice(["rec1", "NZ_X.1"]), "length": length, "circular": circular,
                                               "genes": genes},
                 "clusters": clusters, "cdsres": cdsres, "outside": outside, "saved": saved, "cur": cur, "mut": mut,
-                "tool": "rule-based-clusters"}
+                "tool": "rule-based-clusters", "via": "direct"}
+        r = rng.random()
+        if r < 0.45:
+            # results written by the real run_on_record (hmmsearch stubbed with the hits below)
+            case["via"] = "run"
+            case["clusters"], case["cdsres"], case["outside"] = [], {}, []
+            if r < 0.15:
+                case["record"]["genes"] = []          # a record without genes: the early exit of detection
+            else:
+                scale = rng.choice([1, 1, 40])
+                for g in genes:
+                    g["lo"], g["hi"] = g["lo"] * scale, g["hi"] * scale
+                case["record"]["length"] = length * scale
+                case["record"]["circular"] = False
+            case["hits"] = {g["name"]: [[p, rng.choice(FLOATS_B[:6]), rng.choice(FLOATS_E)]
+                                        for p in rng.choice(HIT_RECIPES)] for g in case["record"]["genes"]}
+            if mut in ("unknown_cds", "empty_domains", "drop_category", "same_rules_other_strictness"):
+                case["mut"] = None
+                case["cur"] = dict(saved)
+        return case
 
     @staticmethod
     def gen_opts(rng: random.Random) -> Dict[str, Any]:
@@ -546,12 +589,36 @@ class C11(Property):
         thresholds = [rng.choice(around) for _ in range(4)]
         if rng.random() < 0.5:
             thresholds[2] = thresholds[0]
-        steps = [{"threshold": t} for t in thresholds[1:]]
+        steps = [{"threshold": t, "mode": rng.choice(["run", "run", "run", "not_in_all", "disabled"])} for t in thresholds[1:]]
         mut = None
         if rng.random() < 0.3:
             mut = rng.choice(["schema:2", "schema:4", "record_id", "empty_json"])
         return {"kind": "tta", "record_id": rng.choice(["rec1", "Y.9"]), "seq": s, "genes": genes,
                 "t0": thresholds[0], "steps": steps, "mut": mut}
+
+    def gen_resfile(self, rng: random.Random) -> Dict[str, Any]:
+        records = []
+        for r in range(rng.choice([1, 1, 2, 3])):
+            tta_codons = [[g, off] for g in range(3) for off in rng.sample(range(0, 27, 3), rng.choice([0, 0, 1, 2]))]
+            hits = []
+            for i in range(rng.choice([0, 0, 1, 3])):
+                ps = rng.randrange(0, 20)
+                hits.append({"gene": rng.randrange(3), "label": f"hit{i}", "domain": "p450", "evalue": rng.choice(["1e-30", "0.001", "2.5e-07"]),
+                             "score": rng.choice(["10.0", "25.1", "300.5"]), "identifier": "PF00067.25", "description": "desc",
+                             "ps": ps, "pe": ps + rng.randrange(1, 9)})
+            records.append({"id": f"rec{r}", "tta": tta_codons if rng.random() < 0.8 else None,
+                            "tta_threshold": rng.choice(["0.0", "0.3", "0.65"]), "hmmer": hits if rng.random() < 0.6 else None,
+                            "none_entry": rng.random() < 0.2, "original_id": rng.choice([None, None, "orig name"])})
+        mut = None
+        if rng.random() < 0.6:
+            mut = rng.choice(["schema:5", "schema:5", "schema:0", "schema:-1", "schema:17", "schema:3", "schema:2", "schema:1",
+                              "schema:missing", "schema:null", "schema:str", "schema:true", "renamed_key:5", "both_keys:5",
+                              "both_keys:4", "drop_version", "drop_input_file", "drop_taxon", "drop_modules", "drop_records"])
+        taxon = rng.choice(["bacteria", "fungi"])
+        return {"kind": "resfile", "records": records, "taxon": taxon, "cur_taxon": rng.choice(["bacteria", "fungi"]),
+                "version": rng.choice(["8.0.0", "7.1.0", "8.0.1beta1"]), "input_file": rng.choice(["input.gbk", "seq.fasta"]),
+                "timings": rng.random() < 0.5, "flow": rng.choice(["from_file", "read_data", "read_data"]),
+                "bz2": rng.random() < 0.15, "mut": mut}
 
     def all_runmod(self) -> Iterator[Dict[str, Any]]:
         for has_prev in (False, True):
@@ -721,8 +788,7 @@ class C11(Property):
 
     def impl_nrpspks(self, case: Dict[str, Any]) -> Dict[str, Any]:
         import orjson
-        from antismash.detection.nrps_pks_domains import domain_identification as di
-        from antismash.detection.nrps_pks_domains import module_identification as mi
+        from antismash.detection import nrps_pks_domains
         rec_a = self.nrps_record(case)
         try:
             x = self.nrps_generate(case, rec_a)
@@ -746,9 +812,10 @@ class C11(Property):
         def regen(j: Any) -> Any:
             rec = self.nrps_record(case, cur_record_id)
             records.append(rec)
-            return di.NRPSPKSDomains.from_json(j, rec)
+            return nrps_pks_domains.regenerate_previous_results(j, rec, None)
         self.cycle(obs, j_in, regen, lambda y: y.to_json())
         if obs.get("outcome") == "reuse":
+            obs["domain_ids"] = [d.domain_id for d in records[0].get_antismash_domains()]
             try:
                 obs["_obj"].add_to_record(records[0])
                 obs["features_equal"] = feature_obs(records[0]) == feature_obs(rec_a)
@@ -860,6 +927,27 @@ class C11(Property):
         rr = RuleDetectionResults(by_cluster, tool, outside, mult)
         return HMMDetectionResults(record.id, rr, enabled, saved["strictness"])
 
+    def det_run(self, case: Dict[str, Any], record: Any, options: Any) -> Any:
+        """the real hmm_detection.run_on_record; only the hmmsearch call is replaced by the case's hits"""
+        from antismash.common.hmm_rule_parser import cluster_prediction as cp
+        from antismash.common.hmm_rule_parser.structures import HMMerHit
+        from antismash.detection import hmm_detection
+        hits = case.get("hits", {})
+
+        def fake(_record: Any, sigs: Dict[str, Any], _db: str, _groups: Any) -> Dict[str, List[Any]]:
+            out: Dict[str, List[Any]] = {}
+            for name, found in hits.items():
+                mine = [HMMerHit(name, p, 5, 25, sigs[p].seed_count, fl(e), fl(b)) for p, b, e in found if p in sigs]
+                if mine:
+                    out[name] = mine
+            return out
+        saved = cp.find_hmmer_hits
+        cp.find_hmmer_hits = fake
+        try:
+            return hmm_detection.run_on_record(record, None, options)
+        finally:
+            cp.find_hmmer_hits = saved
+
     @staticmethod
     def det_config(o: Dict[str, Any]) -> Any:
         return config(hmmdetection_strictness=o["strictness"], hmmdetection_limit_to_rules=list(o["limit"]),
@@ -882,9 +970,15 @@ class C11(Property):
         saved_opts = self.det_config(case["saved"])
         enabled = list(hmm_detection.get_ruleset(saved_opts).get_rule_names())
         rec_a = self.det_record(case)
-        x = self.det_build(case, rec_a, enabled)
-        x.rule_results.annotate_cds_features()     # as run_on_record does
+        via = case.get("via", "direct")
+        if via == "run":
+            x = self.det_run(case, rec_a, saved_opts)
+        else:
+            x = self.det_build(case, rec_a, enabled)
+            x.rule_results.annotate_cds_features()     # as run_on_record does
         j_in = orjson.loads(orjson.dumps(x.to_json()))
+        fresh_wire = to_wire(j_in) if via == "run" else None
+        saved_names = sorted(hmm_detection.get_ruleset(saved_opts).get_rule_names())
         mut = case.get("mut")
         applied = True
         cur_record_id = case["record"]["id"]
@@ -900,7 +994,14 @@ class C11(Property):
             "opts": {"strictness": case["cur"]["strictness"], "rule_names": rule_names,
                      "fungi": case["cur"]["taxon"] == "fungi", "cutoff": dec_of(fl(case["cur"]["cutoff"])),
                      "neighbourhood": dec_of(fl(case["cur"]["nbh"]))},
-            "n_clusters": len(case["clusters"])}
+            "n_clusters": len(case["clusters"]) + len(x.get_predicted_protoclusters()) + (1 if via == "run" else 0)}
+        if via == "run":
+            obs["produced"] = {
+                "saved_opts": {"strictness": case["saved"]["strictness"], "rule_names": saved_names,
+                               "fungi": case["saved"]["taxon"] == "fungi", "cutoff": dec_of(fl(case["saved"]["cutoff"])),
+                               "neighbourhood": dec_of(fl(case["saved"]["nbh"]))},
+                "fresh_json": fresh_wire, "no_genes": not case["record"]["genes"], "tool": x.rule_results.tool,
+                "saved_record_id": case["record"]["id"]}
         records: List[Any] = []
 
         def regen(j: Any) -> Any:
@@ -912,6 +1013,12 @@ class C11(Property):
             y = obs["_obj"]
             obs["protos"] = [{"loc": loc_obs(p.location), "core": loc_obs(p.core_location), "product": p.product}
                              for p in y.get_predicted_protoclusters()]
+            # what regeneration annotated on the fresh record copy
+            obs["annotations"] = sorted(
+                [cds.get_name(),
+                 [[d.name, dec_of(d.evalue), dec_of(d.bitscore), d.nseeds, d.tool] for d in cds.sec_met.domains],
+                 [[str(f.function), f.tool, f.description, f.product] for f in cds.gene_functions]]
+                for cds in records[0].get_cds_features() if cds.sec_met)
             try:
                 feats_a, bytes_a = self.det_observe(x, rec_a)
                 feats_b, bytes_b = self.det_observe(y, records[0])
@@ -1174,6 +1281,7 @@ class C11(Property):
                     x.add_to_record(rec_a)
                     y.add_to_record(records[0])
                     obs["features_equal"] = feature_obs(rec_a) == feature_obs(records[0])
+                    obs["domain_ids"] = [d.domain_id for d in records[0].get_pfam_domains()]
                 if changed:
                     # a second regeneration under the same (new) thresholds must be stable
                     second: Dict[str, Any] = {}
@@ -1250,30 +1358,218 @@ class C11(Property):
         obs: Dict[str, Any] = {"json_in": to_wire(j_in), "mutated": bool(mut), "gc": dec_of(gc), "all_codons": all_codons,
                                "ctx": {"record_id": cur_record_id, "cds_names": []}, "steps": [],
                                "n_codons": len(all_codons)}
-        cur = j_in
+        from antismash import main
+        name = "antismash.modules.tta"
+        module_results: Dict[str, Any] = {name: j_in}
         for step in case["steps"]:
-            opts = config(tta_threshold=fl(step["threshold"]))
+            mode = step.get("mode", "run")
+            config(tta_threshold=fl(step["threshold"]))
             rec = self.tta_record(case, cur_record_id)
             entry: Dict[str, Any] = {}
+            seen: Dict[str, Any] = {"outcome": "none", "called": False, "regenerated": None}
+
+            def regen(previous: Any, record: Any, options: Any) -> Any:
+                try:
+                    seen["regenerated"] = tta.regenerate_previous_results(orjson.loads(orjson.dumps(previous)), record, options)
+                except Exception as exc:
+                    seen["outcome"] = outcome_of(exc)
+                    raise
+                seen["outcome"] = "discard" if seen["regenerated"] is None else "reuse"
+                return seen["regenerated"]
+
+            def run(record: Any, results: Any, options: Any) -> Any:
+                seen["called"] = True
+                return tta.run_on_record(record, results, options)
+            proxy = SimpleNamespace(__name__=name, regenerate_previous_results=regen, is_enabled=tta.is_enabled,
+                                    run_on_record=run)
+            options = SimpleNamespace(tta_threshold=fl(step["threshold"]), tta_enabled=mode != "disabled", minimal=True,
+                                      all_enabled_modules=[] if mode == "not_in_all" else [proxy])
             try:
-                regenerated = tta.regenerate_previous_results(orjson.loads(orjson.dumps(cur)), rec, opts)
+                main.run_module(rec, proxy, options, module_results, {})
             except Exception as exc:  # pylint: disable=broad-except
-                entry["outcome"] = outcome_of(exc)
+                entry["outcome"] = seen["outcome"] if seen["outcome"].startswith("refuse") else outcome_of(exc)
                 obs["steps"].append(entry)
                 break
-            entry["outcome"] = "discard" if regenerated is None else "reuse"
-            final = tta.run_on_record(rec, regenerated, opts)
-            entry["ran"] = final is not regenerated
-            final.add_to_record(rec)
-            entry["json"] = to_wire(orjson.loads(orjson.dumps(final.to_json())))
-            entry["features"] = [loc_obs(f.location) for f in final.features]
-            # what a fresh run under these options stores
-            fresh = tta.detect(self.tta_record(case, cur_record_id), opts)
-            entry["equals_fresh"] = orjson.dumps(fresh.to_json()) == orjson.dumps(final.to_json())
+            final = module_results.get(name)
+            entry["outcome"] = seen["outcome"]
+            entry["called"] = seen["called"]
+            entry["ran"] = seen["called"] and final is not seen["regenerated"]
+            if final is None:
+                entry["json"] = None
+                entry["features"] = []
+                entry["equals_fresh"] = True
+                module_results = {}
+            else:
+                try:
+                    final.add_to_record(rec)
+                    entry["features"] = [loc_obs(f.location) for f in final.features]
+                except ValueError as exc:
+                    entry["features"] = outcome_of(exc)
+                entry["json"] = to_wire(orjson.loads(orjson.dumps(final.to_json())))
+                # what a fresh run under these options stores (only comparable for results of this record)
+                fresh = tta.detect(self.tta_record(case, cur_record_id), SimpleNamespace(tta_threshold=fl(step["threshold"])))
+                entry["equals_fresh"] = final.record_id != rec.id \
+                    or orjson.dumps(fresh.to_json()) == orjson.dumps(final.to_json())
+                module_results = {name: orjson.loads(orjson.dumps(final.to_json()))}
             obs["steps"].append(entry)
-            cur = orjson.loads(orjson.dumps(final.to_json()))
         config()
         return obs
+
+    # ---- the results file
+    @staticmethod
+    def file_record(rid: str) -> Any:
+        from antismash.common.secmet.test.helpers import DummyCDS, DummyRecord
+        feats = [DummyCDS(30 + 130 * i, 120 + 130 * i, 1 if i != 1 else -1, locus_tag=f"gene{i}", translation="MAGIC" * 5 + "MAGI")
+                 for i in range(3)]
+        rec = DummyRecord(features=feats, seq="ATGCGC" * 80, record_id=rid)
+        rec._record.annotations["molecule_type"] = "DNA"   # pylint: disable=protected-access
+        return rec
+
+    def impl_resfile(self, case: Dict[str, Any]) -> Dict[str, Any]:
+        import bz2
+        import os
+        import tempfile
+        import orjson
+        from antismash import main
+        from antismash.common import serialiser
+        from antismash.common.hmmer import HmmerHit, HmmerResults
+        from antismash.common.secmet.locations import FeatureLocation
+        from antismash.config import get_config, update_config
+        from antismash.detection import full_hmmer
+        from antismash.modules import tta
+        from antismash.modules.tta.tta import TTAResults
+        records, results = [], []
+        for spec in case["records"]:
+            rec = self.file_record(spec["id"])
+            if spec["original_id"]:
+                rec.original_id = spec["original_id"]
+            mods: Dict[str, Any] = {}
+            if spec["tta"] is not None:
+                res = TTAResults(rec.id, rec.get_gc_content(), fl(spec["tta_threshold"]))
+                for gene, off in spec["tta"]:
+                    cds = rec.get_cds_by_name(f"gene{gene}")
+                    start = cds.location.start + off
+                    res.new_feature_from_location(FeatureLocation(start, start + 3, cds.location.strand))
+                mods["antismash.modules.tta"] = res
+            if spec["none_entry"]:
+                mods["antismash.modules.lanthipeptides"] = None
+            if spec["hmmer"] is not None:
+                hits = []
+                for h in spec["hmmer"]:
+                    cds = rec.get_cds_by_name(f"gene{h['gene']}")
+                    location = cds.get_sub_location_from_protein_coordinates(h["ps"], h["pe"])
+                    hits.append(HmmerHit(location=str(location), label=h["label"], locus_tag=cds.get_name(), domain=h["domain"],
+                                         evalue=fl(h["evalue"]), score=fl(h["score"]), identifier=h["identifier"],
+                                         description=h["description"], protein_start=h["ps"], protein_end=h["pe"],
+                                         translation=cds.translation[h["ps"]:h["pe"]]))
+                mods["antismash.detection.full_hmmer"] = HmmerResults(rec.id, full_hmmer.MAX_EVALUE, full_hmmer.MIN_SCORE,
+                                                                      "/data/pfam/35.0/Pfam-A.hmm", "fullhmmer", hits)
+            records.append(rec)
+            results.append(mods)
+        timings = {r.id: {"antismash.modules.tta": 0.25} for r in records} if case["timings"] else None
+        original = serialiser.AntismashResults(case["input_file"], records, results, case["version"], timings, taxon=case["taxon"])
+        tmp = tempfile.mkdtemp(prefix="c11_")
+        path = os.path.join(tmp, "results.json")
+        obs: Dict[str, Any] = {"n_areas": sum(len(m) for m in results)}
+        try:
+            original.write_to_file(path)
+            with open(path, "rb") as handle:
+                first_bytes = handle.read()
+            raw = orjson.loads(first_bytes)
+            original_modules = [orjson.dumps(r["modules"]) for r in raw["records"]]
+            mut = case.get("mut")
+            if mut:
+                self.mutate_file(raw, mut)
+            obs["mutated"] = bool(mut)
+            obs["json_in"] = to_wire(raw)
+            data = orjson.dumps(raw)
+            if case["bz2"]:
+                path += ".bz2"
+                with bz2.open(path, "wb") as handle:
+                    handle.write(data)
+            else:
+                with open(path, "wb") as handle:
+                    handle.write(data)
+            obs["constants"] = [serialiser.AntismashResults.SCHEMA_VERSION,
+                                sorted(serialiser.AntismashResults.COMPATIBLE_SCHEMAS[serialiser.AntismashResults.SCHEMA_VERSION],
+                                       reverse=True)]
+            options = config(taxon=case["cur_taxon"])
+            try:
+                if case["flow"] == "read_data":
+                    update_config({"reuse_results": path})
+                    loaded = main.read_data(None, get_config())
+                    obs["taxon"] = get_config().taxon
+                else:
+                    loaded = serialiser.AntismashResults.from_file(path)
+                    obs["taxon"] = loaded.taxon
+            except Exception as exc:  # pylint: disable=broad-except
+                obs["outcome"] = outcome_of(exc)
+                obs["msg"] = str(exc)[:160]
+                return obs
+            obs["outcome"] = "reuse"
+            obs["version"], obs["input_file"] = loaded.version, loaded.input_file
+            obs["modules"] = [to_wire(orjson.loads(orjson.dumps(m))) for m in loaded.results]
+            # regenerate every module's results against the loaded records and save again
+            stable = True
+            try:
+                regenerated = []
+                for rec, mods, spec in zip(loaded.records, loaded.results, case["records"]):
+                    options = config(taxon=obs["taxon"], tta_threshold=fl(spec["tta_threshold"]))
+                    new: Dict[str, Any] = {}
+                    for name, stored in mods.items():
+                        module = tta if name.endswith(".tta") else full_hmmer
+                        new[name] = module.regenerate_previous_results(stored, rec, options)
+                    regenerated.append(new)
+                again = serialiser.AntismashResults(loaded.input_file, loaded.records, regenerated, loaded.version,
+                                                    taxon=loaded.taxon).to_json()
+                again = orjson.loads(orjson.dumps(again))
+                obs["rewritten_schema"] = again["schema"]
+                if not mut:
+                    stable = [orjson.dumps(r["modules"]) for r in again["records"]] == original_modules \
+                        and again["taxon"] == case["taxon"] and again["version"] == case["version"] \
+                        and again["input_file"] == case["input_file"]
+            except Exception as exc:  # pylint: disable=broad-except
+                stable = False
+                obs["later_failure"] = f"regenerating from the loaded file: {type(exc).__name__}: {exc}"[:200]
+            obs["bytes_stable"] = stable
+            return obs
+        finally:
+            update_config({"reuse_results": None})
+            config()
+            for name in os.listdir(tmp):
+                os.unlink(os.path.join(tmp, name))
+            os.rmdir(tmp)
+
+    @staticmethod
+    def mutate_file(raw: Dict[str, Any], mut: str) -> None:
+        kind, _, val = mut.partition(":")
+        if kind == "schema":
+            if val == "missing":
+                raw.pop("schema")
+            elif val == "null":
+                raw["schema"] = None
+            elif val == "str":
+                raw["schema"] = "4"
+            elif val == "true":
+                raw["schema"] = True
+            else:
+                raw["schema"] = int(val)
+        elif kind == "renamed_key":
+            raw.pop("schema")
+            raw["schema_version"] = int(val)
+        elif kind == "both_keys":
+            raw["schema"] = int(val)
+            raw["schema_version"] = 9 - int(val)
+        elif mut == "drop_version":
+            raw.pop("version")
+        elif mut == "drop_input_file":
+            raw.pop("input_file")
+        elif mut == "drop_taxon":
+            raw.pop("taxon")
+        elif mut == "drop_modules":
+            raw["records"][-1].pop("modules")
+        elif mut == "drop_records":
+            raw.pop("records")
 
     # ---- main.run_module
     def impl_runmod(self, case: Dict[str, Any]) -> Dict[str, Any]:
@@ -1337,12 +1633,14 @@ class C11(Property):
             line["requested"] = obs["requested"]
         if kind == "hmmdet":
             line["opts"] = obs["opts"]
+            line.update(obs.get("produced", {}))
         elif kind == "hmmer":
             line.update({"max_evalue": obs["max_evalue"], "min_score": obs["min_score"], "op": case["op"]})
         elif kind == "tta":
             line.update({"gc": obs["gc"], "all_codons": obs["all_codons"],
-                         "steps": [{"threshold": dec_of(fl(s["threshold"])), "record_id": obs["ctx"]["record_id"]}
-                                   for s in case["steps"]]})
+                         "steps": [{"threshold": dec_of(fl(s["threshold"])), "record_id": obs["ctx"]["record_id"],
+                                    "in_all": s.get("mode", "run") != "not_in_all",
+                                    "enabled": s.get("mode", "run") != "disabled"} for s in case["steps"]]})
         return line
 
     def judge(self, case: Dict[str, Any], obs: Dict[str, Any], drv: Optional[Dict[str, Any]]) -> Judgement:
@@ -1363,6 +1661,8 @@ class C11(Property):
             spec_ok = obs["outcome"] != "ok" or obs["stored"] == drv["spec_stored"]
             return Judgement(corr, spec_ok, nontrivial=case["has_prev"], tags=(kind, case["regen"]),
                              detail="" if corr and spec_ok else f"run_module: implementation {obs} vs model {drv}")
+        if kind == "resfile":
+            return self.judge_resfile(case, obs, drv)
         mutated = obs["mutated"]
         outcome = obs.get("outcome")
         corr = outcome == drv["outcome"]
@@ -1373,10 +1673,15 @@ class C11(Property):
             if obs["json_out"] != drv["json"]:
                 corr = False
                 detail = "regenerated JSON differs: " + self.first_diff(obs["json_out"], drv["json"])
-            for key in ("protos", "areas"):
+            if corr and "domain_ids" in obs and obs["domain_ids"] != drv.get("domain_ids"):
+                corr = False
+                detail = f"feature identifiers: implementation {obs['domain_ids'][:6]} vs model {drv.get('domain_ids', [])[:6]}"
+            for key in ("protos", "areas", "annotations"):
                 if corr and key in obs:
                     mine = drv.get(key) if key == "protos" else {"subregions": drv.get("subregions"),
                                                                 "protoclusters": drv.get("protoclusters")}
+                    if key == "annotations":
+                        mine = sorted(drv.get(key, []))
                     if obs[key] != mine:
                         corr = False
                         detail = f"{key}: implementation {obs[key]} vs model {mine}"
@@ -1385,6 +1690,15 @@ class C11(Property):
                 pass
         spec_ok = True
         known = None
+        if kind == "hmmdet" and "saved_under" in drv:
+            if "fresh_model" in drv and obs["produced"]["fresh_json"] != drv["fresh_model"]:
+                corr = False
+                detail = detail or ("results stored for a gene-less record: "
+                                    + self.first_diff(obs["produced"]["fresh_json"], drv["fresh_model"]))
+            if not drv["saved_under"]:
+                spec_ok = False
+                detail = ("the JSON written by run_on_record does not state the settings it was produced under "
+                          "(rule names, strictness, multipliers of the rule set)")
         may = drv.get("may_reuse", True)
         if outcome == "reuse":
             if not may:
@@ -1419,9 +1733,45 @@ class C11(Property):
             tags += (f"{kind}:mut:{case['mut'].split(':')[0]}",)
         if case.get("request"):
             tags += (f"{kind}:request:{case['request']}",)
+        if kind == "hmmdet":
+            tags += (f"hmmdet:via:{case.get('via', 'direct')}" + (":no-genes" if not case["record"]["genes"] else ""),)
         if known:
             in_scope = False     # outside the hypothesis of hmmer_refilter_matches_fresh_partial
         return Judgement(corr, spec_ok, in_scope=in_scope, known=known, nontrivial=size > 0, tags=tags, detail=detail)
+
+    def judge_resfile(self, case: Dict[str, Any], obs: Dict[str, Any], drv: Dict[str, Any]) -> Judgement:
+        outcome = obs["outcome"]
+        corr = outcome == drv["outcome"]
+        detail = "" if corr else f"decision: implementation {outcome} ({obs.get('msg', '')}) vs model {drv['outcome']}"
+        if obs["constants"] != [drv["schema_current"], drv["schema_compatible"]]:
+            corr = False
+            detail = detail or f"schema constants: code {obs['constants']} vs model {drv['schema_current']}, {drv['schema_compatible']}"
+        if corr and outcome == "reuse":
+            for key in ("version", "input_file", "taxon", "modules"):
+                if obs[key] != drv[key]:
+                    corr = False
+                    detail = detail or f"{key}: implementation {str(obs[key])[:200]} vs model {str(drv[key])[:200]}"
+            if "rewritten_schema" in obs and obs["rewritten_schema"] != drv["rewritten_schema"]:
+                corr = False
+                detail = detail or f"schema written: {obs['rewritten_schema']} vs model {drv['rewritten_schema']}"
+        spec_ok = True
+        if outcome == "reuse":
+            if not drv["may_reuse"]:
+                spec_ok = False
+                detail = ("a results file written under another (incompatible) results schema was read and its results "
+                          "reinterpreted: " + detail)
+            if not obs.get("bytes_stable", True):
+                spec_ok = False
+                detail = detail or ("module results regenerated from the file do not save to the same JSON "
+                                    + obs.get("later_failure", ""))
+        elif not obs["mutated"]:
+            spec_ok = False
+            detail = detail or f"an unchanged results file was not read back: {outcome} {obs.get('msg', '')}"
+        tags = ("resfile", "resfile:" + outcome.split(":")[0], "mutated" if obs["mutated"] else "same-settings",
+                "resfile:" + case["flow"])
+        if case.get("mut"):
+            tags += ("resfile:mut:" + case["mut"],)
+        return Judgement(corr, spec_ok, nontrivial=obs["n_areas"] > 0, tags=tags, detail=detail)
 
     def judge_tta(self, case: Dict[str, Any], obs: Dict[str, Any], drv: Dict[str, Any]) -> Judgement:
         corr, spec_ok, detail = True, True, ""
@@ -1431,6 +1781,9 @@ class C11(Property):
                 spec_ok = False
                 detail = detail or (f"step {i}: results after {step['outcome']} differ from a fresh run under the "
                                     f"current threshold: {step}")[:600]
+            if step["outcome"] == "reuse" and "json" in step and step["json"] is None:
+                spec_ok = False
+                detail = detail or f"step {i}: results were regenerated but run_module did not keep them"
             if step["outcome"] == "reuse" and i < len(msteps) and msteps[i].get("may_reuse") is False:
                 spec_ok = False
                 detail = detail or f"step {i}: results reused across a schema change"
@@ -1447,14 +1800,16 @@ class C11(Property):
                 break
             if "json" not in step:
                 break
-            if step["ran"] != m["ran"] or step["json"] != m["json"] or step["features"] != m["features"]:
+            if step["ran"] != m["ran"] or step["json"] != m["json"] or step["features"] != m["features"] \
+                    or step["called"] != m["called"]:
                 corr = False
                 detail = detail or f"step {i}: implementation {step} vs model {m}"[:800]
                 break
             if not m["reference_ok"]:
                 spec_ok = False
                 detail = detail or f"step {i}: model result differs from the reference of the spec"
-        outcomes = tuple(sorted({"tta:" + s["outcome"].split(":")[0] for s in obs["steps"]}))
+        outcomes = tuple(sorted({"tta:" + s["outcome"].split(":")[0] for s in obs["steps"]}
+                                | {"tta:mode:" + s.get("mode", "run") for s in case["steps"]}))
         return Judgement(corr, spec_ok, nontrivial=obs["n_codons"] > 0, tags=("tta",) + outcomes
                          + (("mutated",) if obs["mutated"] else ("same-settings",)), detail=detail)
 
@@ -1522,6 +1877,16 @@ class C11(Property):
         elif kind == "hmmer":
             for i in range(len(case["hits"])):
                 yield dict(case, hits=case["hits"][:i] + case["hits"][i + 1:])
+        elif kind == "resfile":
+            for i in range(len(case["records"])):
+                if len(case["records"]) > 1:
+                    yield dict(case, records=case["records"][:i] + case["records"][i + 1:])
+            for i, r in enumerate(case["records"]):
+                for key in ("tta", "hmmer"):
+                    if r[key]:
+                        yield dict(case, records=case["records"][:i] + [dict(r, **{key: []})] + case["records"][i + 1:])
+            if case["bz2"]:
+                yield dict(case, bz2=False)
         elif kind == "tta":
             for i in range(len(case["steps"])):
                 if len(case["steps"]) > 1:
